@@ -129,3 +129,65 @@ CONTRACTS.append(
                      "E": "all((k in E(hypergraph)) == (k in pre(E(hypergraph)) and count(_done3, k) == 0) for k in Key)",
                      **KEPT}},
              ))
+
+
+# ---- keep_edges=True on a Hypergraph: the removed nodes are taken out of their hyperedges (remove_node(keep_edges=True), verified), so the
+# statement's hyperedge clause has its exception ("unless hyperedges are kept and shrunk"). What the statement still says, and what is proved:
+# exactly the nodes the node criteria keep survive, with their metadata; weightedness is unchanged; no surviving hyperedge fails the hyperedge
+# criteria (evaluated on the metadata it has after the node phase, which the hyperedge phase does not touch).
+RME_NOW = ('(edge_criteria is not None and ((mode == "keep" and not helper("matches_criteria", M(hypergraph, k), edge_criteria)) or '
+           '(mode == "remove" and helper("matches_criteria", M(hypergraph, k), edge_criteria))))')
+KEPT_N = {"NM_kept": "all(NM(hypergraph, n) == NM(old(hypergraph), n) for n in V(hypergraph))", "weighted": "weighted(hypergraph) == weighted(old(hypergraph))"}
+CONTRACTS.append(
+    Contract("filter_hypergraph[Hypergraph]@keep_edges", FILE, ["filter_hypergraph"], properties=["C19"],
+             params={"hypergraph": "Obj[Hypergraph]", "node_criteria": "Opt[Meta]", "edge_criteria": "Opt[Meta]", "mode": "Str", "keep_edges": "Bool"},
+             fixed={"keep_edges": True},
+             locals={"nodes_to_process": "Bag[Int]", "edges_to_process": "Bag[Tup]"},
+             requires={"wf": "wf(hypergraph)"},
+             raises={"ValueError": 'mode != "keep" and mode != "remove"'},
+             modifies_args={"hypergraph": ["_adj", "_node_metadata", "_edge_list", "_reverse_edge_list", "_weights", "_edge_metadata", "_next_edge_id"]},
+             ensures={"wf": "wf(hypergraph)",
+                      "V": f"all((n in V(hypergraph)) == (n in V(old(hypergraph)) and not {RMN}) for n in Node)",
+                      "E_criteria": f"all(not {RME_NOW} for k in E(hypergraph))",
+                      **KEPT_N},
+             invariants={
+                 0: {"list": f"all(count(nodes_to_process, n) == (1 if n in _done0 and {RMN} else 0) for n in Node)"},
+                 1: {"wf": "wf(hypergraph)",
+                     "V": "all((n in V(hypergraph)) == (n in V(old(hypergraph)) and count(_done1, n) == 0) for n in Node)",
+                     **KEPT_N},
+                 2: {"list": f"all(count(edges_to_process, k) == (1 if k in _done2 and {RME_NOW} else 0) for k in Tuple)"},
+                 3: {"wf": "wf(hypergraph)", "V": "V(hypergraph) == pre(V(hypergraph))",
+                     "E": "all((k in E(hypergraph)) == (k in pre(E(hypergraph)) and count(_done3, k) == 0) for k in Tuple)",
+                     "M": "all(M(hypergraph, k) == pre(M(hypergraph, k)) for k in E(hypergraph))",
+                     **KEPT_N}},
+             ))
+
+
+def _keep_variant(cls, ety, key, mut):
+    return Contract(f"filter_hypergraph[{cls}]@keep_edges", FILE, ["filter_hypergraph"], properties=["C19"],
+                    params={"hypergraph": f"Obj[{cls}]", "node_criteria": "Opt[Meta]", "edge_criteria": "Opt[Meta]", "mode": "Str", "keep_edges": "Bool"},
+                    fixed={"keep_edges": True},
+                    locals={"nodes_to_process": "Bag[Int]", "edges_to_process": f"Bag[{ety}]"},
+                    requires={"wf": "wf(hypergraph)"},
+                    raises={"ValueError": 'mode != "keep" and mode != "remove"'},
+                    modifies_args={"hypergraph": mut},
+                    ensures={"wf": "wf(hypergraph)",
+                             "V": f"all((n in V(hypergraph)) == (n in V(old(hypergraph)) and not {RMN}) for n in Node)",
+                             "E_criteria": f"all(not {RME_NOW} for k in E(hypergraph))",
+                             **KEPT_N},
+                    invariants={
+                        0: {"list": f"all(count(nodes_to_process, n) == (1 if n in _done0 and {RMN} else 0) for n in Node)"},
+                        1: {"wf": "wf(hypergraph)",
+                            "V": "all((n in V(hypergraph)) == (n in V(old(hypergraph)) and count(_done1, n) == 0) for n in Node)",
+                            **KEPT_N},
+                        2: {"list": f"all(count(edges_to_process, k) == (1 if k in _done2 and {RME_NOW} else 0) for k in {key})"},
+                        3: {"wf": "wf(hypergraph)", "V": "V(hypergraph) == pre(V(hypergraph))",
+                            "E": f"all((k in E(hypergraph)) == (k in pre(E(hypergraph)) and count(_done3, k) == 0) for k in {key})",
+                            "M": "all(M(hypergraph, k) == pre(M(hypergraph, k)) for k in E(hypergraph))",
+                            **KEPT_N}})
+
+
+# the same for the temporal and multiplex containers (their remove_node(keep_edges=True) is verified too; DirectedHypergraph.remove_node with
+# keep_edges=True leaves the node inside its hyperedges - outside C02's statement, not contracted)
+CONTRACTS += [_keep_variant("TemporalHypergraph", "Pair[Int,Tup]", "Key", MUT_T + ["_next_edge_id"]),
+              _keep_variant("MultiplexHypergraph", "Pair[Tup,Layer]", "Key", MUT_T + ["_next_edge_id", "_existing_layers"])]
